@@ -159,6 +159,21 @@ class Monitor:
         return c
 
 
+class suspended:
+    """with suspended(): subscriptions made inside are not monitored (the aborted subscriptions of a history
+    prelude - a consumer that raises is a user function that raises, which the protocol property excludes)."""
+
+    def __enter__(self):
+        global _ACTIVE
+        self._prev = _ACTIVE
+        _ACTIVE = None
+
+    def __exit__(self, *a):
+        global _ACTIVE
+        _ACTIVE = self._prev
+        return False
+
+
 def _patched(self, observer, scheduler=None):
     m = _ACTIVE
     if m is None:
